@@ -1,22 +1,22 @@
 SPECIFICATION Spec
 CONSTANTS
-  Nodes = {1, 2}
+  Nodes = {1, 2, 3}
   Slots = {"A", "B"}
   Keys = {"a1", "b1"}
   SlotOf <- MCSlotOf2
   MaxCmds = 3
   MaxHops = 3
-  WithMigration = TRUE
+  WithMigration = FALSE
   EmptyTableAtStart = FALSE
   AtomicAsk = TRUE
-  WithFailover = FALSE
+  WithFailover = TRUE
   FixRefreshOnDialError = TRUE
   StepwiseRefresh = FALSE
   ClearBeforeFill = FALSE
   MaxTicks = 0
-  LazyConnect = TRUE
+  LazyConnect = FALSE
   AsyncRedirectDial = FALSE
-  TrackOrder = TRUE
+  TrackOrder = FALSE
   WithDemotion = FALSE
   ReadonlyEverywhere = TRUE
   MaxMigs = 1
@@ -24,8 +24,8 @@ CONSTANTS
   MaxFollowed = 0
   DeathKinds = {"refused"}
   RefreshOnTimeout = TRUE
-  PromotedFlags = {{"master"}}
-  ParserSkips = {}
-INVARIANTS NoRedirectToFreshNode
-CONSTRAINT HopBound
+  PromotedFlags = {{"master", "nofailover"}}
+  ParserSkips = {"nofailover"}
+INVARIANTS EqualsReference EffectOnce SingleCopy CopyIsReference NoLostKey ErrorsOnlyWhileStale
+PROPERTIES ConvergesAfterDialError
 CHECK_DEADLOCK FALSE
